@@ -148,7 +148,7 @@ fn bucket_names(acc: &mut Acc, tier: Tier) {
 }
 
 fn key_alphabet() -> Vec<String> {
-    let base = ["a", "a/b", "/a", "a//b", "a/", ".", "..", "a/../b", "./a", "a b", " a ", "a+b", "a%b", "a%2Fb", "a%25b", "%", "a?b", "a#b", "a&b=c", "é", "😀", "a\tb", "~_-.!*'()", "a\\b", "k;v", "a:b@c"];
+    let base = ["a", "a/b", "/a", "a//b", "a/", "/", "//", "///", "/./",  ".", "..", "a/../b", "./a", "a b", " a ", "a+b", "a%b", "a%2Fb", "a%25b", "%", "a?b", "a#b", "a&b=c", "é", "😀", "a\tb", "~_-.!*'()", "a\\b", "k;v", "a:b@c"];
     let mut keys: Vec<String> = base.iter().map(|s| (*s).to_owned()).collect();
     // lengths around the limit, with a multi-byte tail so that the limit is in bytes
     for n in [1023usize, 1024, 1025] {
@@ -184,6 +184,14 @@ fn keys_and_hosts(acc: &mut Acc) {
                 cases.push((d.to_owned(), path_style.clone(), if configured.is_empty() || configured.contains(&d) { "path" } else { "foreign" }));
                 cases.push((format!("{bucket}.{d}"), vh_style.clone(), if configured.contains(&d) { "vh" } else if configured.is_empty() { "path-of-vh-request" } else { "foreign" }));
             }
+            // hosts that merely *end with the text* of a base domain belong to no base domain (labels decide, not characters)
+            for d in domains {
+                for h in [format!("x{d}"), format!("{bucket}{d}"), format!("a-{d}")] {
+                    if !domains.iter().any(|c| label_suffix(&h, c)) {
+                        cases.push((h, vh_style.clone(), "foreign"));
+                    }
+                }
+            }
             for ip in ["127.0.0.1", "127.0.0.1:8014", "[::1]:8014", "[::1]", "[2001:db8::1]:443", "10.0.0.1:80"] {
                 cases.push((ip.to_owned(), path_style.clone(), "path"));
             }
@@ -201,9 +209,23 @@ fn keys_and_hosts(acc: &mut Acc) {
                     continue;
                 }
                 match expect {
+                    "foreign" if !configured.is_empty() => {
+                        // "a host is resolved against the configured base domain it belongs to": a host that belongs to none is
+                        // refused or taken as a whole (the repository's choice: bucket = host) - never split against a base domain
+                        let whole = host.split(':').next().unwrap_or("");
+                        match &seen.bucket_key {
+                            None => a.outcome("foreign host: refused"),
+                            Some((b, _)) if b == &host || b == whole => a.outcome("foreign host: taken as a whole (bucket = host)"),
+                            Some((b, k)) => {
+                                a.outcome("foreign host: RESOLVED AGAINST A BASE DOMAIN IT DOES NOT BELONG TO");
+                                a.fail("C12/host/foreign-host-resolved-against-a-base-domain", ki, id(), format!("host {host:?} belongs to none of the configured base domains {configured:?}, yet the backend saw bucket {b:?} key {k:?}"), json!({"host": host, "path": path}));
+                            }
+                        }
+                        continue;
+                    }
                     "foreign" | "path-of-vh-request" => {
-                        // a Host outside every configured base domain (or a virtual-hosted request sent to a service without host parser): the statement is silent; totality only
-                        a.outcome("not judged (foreign host / no host parser for a virtual-hosted request)");
+                        // a virtual-hosted request sent to a service without host parser: the statement is silent; totality only
+                        a.outcome("not judged (no host parser for a virtual-hosted request)");
                         continue;
                     }
                     _ => {}
@@ -303,10 +325,10 @@ pub fn run(ctx: &Ctx) -> (Acc, Report) {
     let n = ctx.tier.pick(6, 7);
     let rep = Report {
         level: "exploration",
-        rule: format!("bucket names: all strings of length 0..{n} over {{a,A,1,.,-,_}} plus boundary lengths, IP shapes and reserved prefixes/suffixes, each path-style and virtual-hosted-style, judged by a sandwich (breaks a core rule => refused; valid under the complete published rules => accepted and resolved to itself; in between not judged). Keys: 35 keys (slashes, dots, blanks, + % ? # non-ASCII, literal escapes, 1023/1024/1025 bytes) x host parser {{none, single, multi(1..4)}} x hosts {{each base domain, bucket.domain, IPv4, IPv4:port, [v6]:port, [v6]}}: backend's (bucket,key) must equal the client's in both styles. Constructors: all ordered selections of <=3 of 11 domains. Distinct by id."),
+        rule: format!("bucket names: all strings of length 0..{n} over {{a,A,1,.,-,_}} plus boundary lengths, IP shapes and reserved prefixes/suffixes, each path-style and virtual-hosted-style, judged by a sandwich (breaks a core rule => refused; valid under the complete published rules => accepted and resolved to itself; in between not judged). Keys: 35 keys (slashes, dots, blanks, + % ? # non-ASCII, literal escapes, 1023/1024/1025 bytes) x host parser {{none, single, multi(1..4)}} x hosts {{each base domain, bucket.domain, three hosts per domain that end with its text without belonging to it, IPv4, IPv4:port, [v6]:port, [v6]}}: backend's (bucket,key) must equal the client's in both styles. Constructors: all ordered selections of <=3 of 11 domains. Distinct by id."),
         exhaustive: true,
         extra: json!({}),
-        assumptions: vec!["a Host outside every configured base domain is resolved by the repository as bucket = host on purpose; the statement is silent, only totality is checked".into(), "keys are percent-encoded once by the reference encoder (UriEncode, slash kept)".into()],
+        assumptions: vec!["a Host that belongs (label-wise) to no configured base domain may be refused or taken as a whole (bucket = host, the repository's choice); it must never be split against a base domain whose text it merely ends with".into(), "keys are percent-encoded once by the reference encoder (UriEncode, slash kept)".into()],
     };
     (acc, rep)
 }
